@@ -36,6 +36,7 @@ type scenario struct {
 	TimeoutNs int64      `json:"timeout_ns,omitempty"` // when non-zero it is Dialer.Timeout instead: a budget that has run out (negative) or 1 ns
 	DialDelay int        `json:"netdial_delay_ms,omitempty"`
 	DialFail  bool       `json:"netdial_fails,omitempty"`  // NetDial reports "connection refused" after its delay
+	Scheme    string     `json:"scheme,omitempty"`         // "" = ws/wss as the conn chain needs | WS (upper case) | http | https | wws | path (no scheme) | bad (unparseable)
 	Entry     string     `json:"entry,omitempty"`          // "" = Dialer.Dial on a value | package = the dialer is assigned to ws.DefaultDialer and ws.Dial is called
 	Wrap      string     `json:"wrap,omitempty"`           // "" | tlsclient (wss + pass-through TLSClient) | wrapconn | both | tls-default (wss, crypto/tls client)
 	TLSNilCfg bool       `json:"tls_nil_config,omitempty"` // tls-default: Dialer.TLSConfig nil instead of {InsecureSkipVerify: true}
@@ -94,6 +95,10 @@ func (s *scenario) timeout() time.Duration {
 	}
 	return ms(s.Timeout)
 }
+
+// refused reports whether the URL is one Dial has to refuse before any
+// handshake I/O: not a ws/wss URL.
+func (s *scenario) refused() bool { return s.Scheme != "" && s.Scheme != "WS" }
 
 func (s *scenario) hasDeadline() bool { return strings.HasPrefix(s.Ctx, "deadline") }
 
@@ -264,6 +269,16 @@ func bubble(sc *scenario, out *outcome) {
 	switch sc.Wrap {
 	case "tlsclient", "both", "tls-default":
 		url = "wss://127.0.0.1:1/c20"
+	}
+	switch sc.Scheme {
+	case "WS":
+		url = strings.ToUpper(url[:strings.Index(url, ":")]) + url[strings.Index(url, ":"):]
+	case "http", "https", "wws":
+		url = sc.Scheme + "://127.0.0.1:1/c20"
+	case "path":
+		url = "/c20"
+	case "bad":
+		url = "ws://127.0.0.1:1/c20%zz"
 	}
 	if sc.Wrap == "tlsclient" || sc.Wrap == "both" {
 		d.TLSClient = func(c net.Conn, hostname string) net.Conn {
@@ -485,7 +500,7 @@ func judge(sc *scenario, o *outcome) (v verdict) {
 		v.Violation = fmt.Sprintf("Dial never returned, even after the watchdog cancelled the context and the peer went away at %v (synctest: %s)", watchdogAfter, o.Deadlock)
 		return
 	}
-	if o.NetDials == 0 {
+	if o.NetDials == 0 && !sc.refused() {
 		v.Outcome = "netdial-bypassed"
 		v.Violation = fmt.Sprintf("Dial returned (err=%v) without ever calling the configured Dialer.NetDial: the dialer's configuration was ignored", o.Err)
 		return
@@ -557,6 +572,14 @@ func judge(sc *scenario, o *outcome) (v verdict) {
 
 	// "if the context ended before the handshake I/O finished, the error is
 	// the context's error"
+	if sc.refused() && !o.ConnObtained {
+		// no handshake I/O exists for a URL that is refused up front: the
+		// error is the URL's, whatever the context does
+		ctxEnds = false
+		if v.Open == "" {
+			v.Open = "url-refused"
+		}
+	}
 	if ctxEnds && !o.Rescued {
 		switch {
 		case pl.Kind == "pre":
